@@ -38,7 +38,7 @@ pub fn any_cfg_depth(max_props: usize, with_depth: bool) -> BoxedStrategy<RunCfg
         finish_strategy(max_props),
         30usize..300,
         block_strategy(),
-        proptest::option::weighted(if with_depth { 0.4 } else { 0.0 }, 1usize..7),
+        if with_depth { proptest::option::weighted(0.4, 1usize..7).boxed() } else { Just(None::<usize>).boxed() },
     )
         .prop_map(|(s, seed, threads, finish, target, block_size, depth)| {
             let strat = match s {
